@@ -37,8 +37,8 @@ def setup(ctx):
     ctx.require("monitor", "upload_entries", 10)
 
 
-def run_line(data: bytes, uploads: bool):
-    """Feed request bytes in one read; return observation."""
+def run_line(data: bytes, uploads: bool, cuts=()):
+    """Feed request bytes (in one read, or cut at `cuts`); return observation."""
     from nauyaca.server.protocol import GeminiServerProtocol
 
     log = []
@@ -49,7 +49,11 @@ def run_line(data: bytes, uploads: bool):
         up = SpyUpload({"outcome": "value", "status": 20, "meta": "text/gemini", "body": "stored"}, log, loop) if uploads else None
         sim = ServerSim(lambda: GeminiServerProtocol(h, mw, up), loop=loop, log=log)
         sim.start()
-        sim.feed(data)
+        prev = 0
+        for c in list(cuts) + [len(data)]:
+            if c > prev:
+                sim.feed(data[prev:c])
+                prev = c
         sim.finish()
         stream = bytes(sim.transport.written)
         return {
@@ -74,7 +78,7 @@ def host_equal(seen: str, expected: str) -> bool:
     return seen.lower() == e.lower()
 
 
-def judge(ctx, data: bytes, label: str, uploads: bool):
+def judge(ctx, data: bytes, label: str, uploads: bool, cuts=()):
     i = data.find(b"\r\n")
     if i < 0:
         if len(data) > 1024:
@@ -87,12 +91,14 @@ def judge(ctx, data: bytes, label: str, uploads: bool):
         verdict, info, expect = uri.classify_line(line, uploads)
         if i >= 1024 - 1 and b"\r\n" not in data[:1024] and len(data) > 1024:
             pass
-    obs = run_line(data, uploads)
+    obs = run_line(data, uploads, cuts)
+    if cuts:
+        ctx.count("monitor", "lines_delivered_in_several_reads")
     invoked = ("H" if obs["handler"] else "") + ("M" if obs["mw"] else "") + ("U" if obs["upload"] else "")
     ctx.count("monitor", "handler_entries", len(obs["handler"]))
     ctx.count("monitor", "mw_entries", len(obs["mw"]))
     ctx.count("monitor", "upload_entries", len(obs["upload"]))
-    wit = {"line": line, "request": data, "uploads_enabled": uploads, "label": label, "verdict": verdict, "info": info,
+    wit = {"line": line, "request": data, "read_boundaries": list(cuts), "uploads_enabled": uploads, "label": label, "verdict": verdict, "info": info,
            "observed": {"status": obs["status"], "stream": obs["stream"][:120], "handler": obs["handler"], "mw": obs["mw"][:1], "upload": [{k: v for k, v in u.items() if k != "content"} for u in obs["upload"]]}}
     is_titan = line.startswith(b"titan://")
     if verdict == "reject":
@@ -147,7 +153,8 @@ def judge(ctx, data: bytes, label: str, uploads: bool):
         ctx.count("outcome", f"accept:{kind}:{'titan' if is_titan else 'gemini'}")
     else:
         ctx.undecided(f"{info}:status={obs['status']}:invoked={invoked or '-'}")
-    ctx.case((label.split(":")[0], verdict, info if isinstance(info, str) else info["host_kind"], obs["status"], invoked, uploads),
+    cutcls = "one-read" if not cuts else ("mid-crlf" if (data.find(b"\r\n") + 1) in cuts else "split")
+    ctx.case((label.split(":")[0], verdict, info if isinstance(info, str) else info["host_kind"], obs["status"], invoked, uploads, cutcls),
              not (verdict == "accept" and label == "plain"),
              sample={"line": line[:100], "uploads": uploads, "verdict": verdict, "status": obs["status"], "invoked": invoked})
 
@@ -202,5 +209,14 @@ def run(ctx):
         else:
             data, label = bytesgen.random_bytes(rng)
         uploads = bool((i // 3) % 2)
-        judge(ctx, data, label, uploads)
+        cuts = ()
+        r = rng.random()
+        crlf = data.find(b"\r\n")
+        if r < 0.12 and crlf > 0:
+            cuts = (crlf + 1,)  # between CR and LF
+        elif r < 0.2 and crlf > 0:
+            cuts = (crlf,) if rng.random() < 0.5 else (crlf + 2,)
+        elif r < 0.35 and len(data) > 2:
+            cuts = bytesgen.random_cuts(rng, len(data), rng.choice([1, 2, 3]))
+        judge(ctx, data, label, uploads, cuts)
         ctx.count("input_class", label)
